@@ -651,15 +651,17 @@ def r7(repo, run):
     for pi in F3:
         for ci in F3:
             for pd in (None, True):
-                child = node_obj('child', 'ConfigNode', _implicit_safe=ci)
-                parent = node_obj('parent', 'ComposedNode', _implicit_safe=pi, _implicit_delete=pd, _children={'k': child})
-                f = FDE(repo)
-                fde_guard(lambda: f.call(prop, parent))
-                rows += 1
-                if ci is False and child.f['_implicit_safe'] is not False:
-                    bad.append((pi, ci, child.f['_implicit_safe']))
-                if pi is False and child.f['_implicit_safe'] is not False:
-                    bad.append(('not propagated', pi, ci, child.f['_implicit_safe']))
+                for ps in F3:
+                    for pe in (None, True):     # other explicit flags of the parent
+                        child = node_obj('child', 'ConfigNode', _implicit_safe=ci)
+                        parent = node_obj('parent', 'ComposedNode', _safe=ps, _delete=pe, _allow_new=pe, _implicit_safe=pi, _implicit_delete=pd, _children={'k': child})
+                        f = FDE(repo)
+                        fde_guard(lambda: f.call(prop, parent))
+                        rows += 1
+                        if ci is False and child.f['_implicit_safe'] is not False:
+                            bad.append(('child False overwritten', ps, pi, ci, child.f['_implicit_safe']))
+                        if pi is False and child.f['_implicit_safe'] is not False:
+                            bad.append(('inherited unsafety of a parent with explicit safe=%r does not reach its child' % ps, pi, ci, child.f['_implicit_safe']))
     run.table('C07.R7:_propagate_implicit_values', rows, '(parent._implicit_safe, child._implicit_safe, parent._implicit_delete)')
     if bad:
         run.violation('C07.R7', prop, '_propagate_implicit_values on _implicit_safe', 'child flag after propagation: %s' % (bad[0],), witness=bad)
@@ -685,8 +687,8 @@ def r7(repo, run):
             f = FDE(repo)
             r = fde_guard(lambda: f.call(gk, parent))
             rows += 1
-            if (ps is False or (ps is None and pi is False)) and r.ret.get('implicit_safe') is not False:
-                bad.append(('new child', ps, pi, r.ret.get('implicit_safe')))
+            if (ps is False or pi is False) and r.ret.get('implicit_safe') is not False:
+                bad.append(('new child of a node with explicit safe=%r whose inherited flag is %r' % (ps, pi), ps, pi, r.ret.get('implicit_safe')))
     run.table('C07.R7:_get_child_kwargs', rows, '(parent._safe, parent._implicit_safe, child._implicit_safe)')
     if bad:
         run.violation('C07.R7', gk, '_get_child_kwargs implicit_safe', 'adoption would overwrite / lose unsafety: %s' % (bad[0],), witness=bad)
@@ -740,6 +742,8 @@ def mutants(repo):
         Mutant('add_source-ignores-safe', lambda r: in_func(r, 'Builder.add_source', "default_safe_flag(safe and self._default_safe_flag)", "default_safe_flag(self._default_safe_flag)"), ['C07.R6']),
         Mutant('adopt-overwrites-implicit-safe', lambda r: in_func(r, 'ConfigNodeMeta.__call__',
                "if arg_name == 'implicit_safe' and getattr(value, '_' + arg_name) is False:", "if False:"), ['C07.R7']),
+        Mutant('F18-reverted-explicit-safe-lifts-unsafety', lambda r: in_func(r, 'ComposedNode._get_child_kwargs', "False if self._implicit_safe is False else notnone_or(self._safe, self._implicit_safe)", "notnone_or(self._safe, self._implicit_safe)"), ['C07.R7']),
+        Mutant('F18-reverted-propagation-stops-at-explicit-safe', lambda r: in_func(r, 'ComposedNode._propagate_implicit_values', "if self._safe is None or self._implicit_safe is False:", "if self._safe is None:"), ['C07.R7']),
         Mutant('propagate-overwrites-false', lambda r: in_func(r, 'ComposedNode._propagate_implicit_values', "if child._implicit_safe is not False:", "if True:"), ['C07.R7']),
         Mutant('neutral-rename-local', lambda r: in_func(r, 'CallNode.ayns.on_evaluate_impl', "_func", "_target", None), neutral=True),
         Mutant('neutral-extra-logging', lambda r: in_func(r, 'EvalContext.evaluate_node', "        self._eval_stack.append(prefix)\n", "        self._eval_stack.append(prefix)\n        _dbg = len(self._eval_stack)\n"), neutral=True),
